@@ -29,7 +29,7 @@ import (
 // <r> per input: P (parse error) or o=<hex output>;v=<value>;e=<0|1>;p=<-|depth|mem|go>;g=<globals>
 
 func init() {
-	suites["eval"] = suite{gen: evalGen, run: evalRun}
+	suites["eval"] = suite{gen: evalGen, run: evalRunT}
 }
 
 type evalOpts struct {
@@ -144,7 +144,12 @@ func astOf(text string) string {
 
 var memLimitOnce sync.Once
 
-func evalRun(input string) string {
+// evalRun: the session format shared with the consts and values suites; the eval suite itself adds the field t=<0|1>
+func evalRun(input string) string { return evalRunOpt(input, false) }
+
+func evalRunT(input string) string { return evalRunOpt(input, true) }
+
+func evalRunOpt(input string, withT bool) string {
 	initExtensions()
 	// "with a process memory limit configured": the allocation guard compares requests with GOMEMLIMIT
 	memLimitOnce.Do(func() { debug.SetMemoryLimit(256 << 20) })
@@ -188,7 +193,7 @@ func evalRun(input string) string {
 				sb.WriteByte('/')
 			}
 			r := evalInput(s, out, t, o)
-			if r != "P" {
+			if r != "P" && withT {
 				// t=1: the step budget was exhausted during this input.  A cache hit or a register saves steps, so
 				// the configurations are cut at different points: such a case says nothing about C01/C04/C05.
 				cc, _ := s.Context.(*countingCtx)
